@@ -23,6 +23,7 @@ def parseBasic : List String → Option Op
   | ["K", i, k, kind] => do pure (.K (← i.toNat?) (← k.toNat?) (← kind.toNat?))
   | ["A", i, v] => do pure (.A (← i.toNat?) (← v.toNat?))
   | ["R", c, k, is] => do pure (.R (← c.toNat?) (← k.toNat?) (← parseNats is))
+  | ["RB", c, k, is] => do pure (.RB (← c.toNat?) (← k.toNat?) (← parseNats is))
   | ["U", c] => c.toNat?.map .U
   | ["T", t] => t.toNat?.map .T
   | ["S", t, id] => do pure (.S (← t.toNat?) (← id.toNat?) none)
@@ -33,6 +34,8 @@ def parseBasic : List String → Option Op
   | ["IM"] => some .IM
   | ["IT"] => some .IT
   | ["IP"] => some .IP
+  | ["IP2"] => some .IP2
+  | ["PG", id] => id.toNat?.map .PG
   | ["GM", l] => l.toNat?.map .GM
   | ["GT"] => some .GT
   | ["N"] => some .N
@@ -42,6 +45,8 @@ def parseBasic : List String → Option Op
   | ["XM"] => some .XM
   | ["XT"] => some .XT
   | ["XP"] => some .XP
+  | ["OC", c] => c.toNat?.map .OC
+  | ["CC", n] => n.toNat?.map .CC
   | _ => none
 
 structure PSt where
@@ -74,8 +79,14 @@ def parseKN (s : String) : Option (List (Nat × Nat)) := do
   let l ← parseKV s
   l.mapM fun (k, v) => v.toNat?.map (k, ·)
 
+/-- the `oc=` token (absent in lines recorded before the OC / CC operations existed = no such operation) -/
+def ocTok (rest : List String) : String := (rest.find? (·.startsWith "oc=")).getD "oc=-"
+def ocOf (rest : List String) : List String :=
+  let v := dropS (ocTok rest) 3
+  if v == "-" then [] else v.splitOn ","
+
 def parseObs : List String → Option Spec.Obs
-  | status :: gates :: sync :: obsv :: cbs :: spans :: props :: _ => do
+  | status :: gates :: sync :: obsv :: cbs :: spans :: props :: rest => do
     let spanToks := if spans == "-" then [] else spans.splitOn ","
     let spanPar ← spanToks.mapM fun e =>
       match e.splitOn "^" with
@@ -85,7 +96,8 @@ def parseObs : List String → Option Spec.Obs
       | _ => none
     let spans := spanPar.map (·.1)
     pure { status := status, gates := if gates == "-" then [] else gates.splitOn ",",
-           sync := ← parseKV sync, obsv := ← parseKV obsv, cbs := ← parseKN cbs, spans := spans, spanPar := spanPar, props := ← parseKN props }
+           sync := ← parseKV sync, obsv := ← parseKV obsv, cbs := ← parseKN cbs, spans := spans, spanPar := spanPar, props := ← parseKN props,
+           oc := ocOf rest }
   | _ => none
 
 def joinOr (l : List String) : String := if l.isEmpty then "-" else ",".intercalate l
@@ -95,13 +107,9 @@ def insBy {α : Type} (x : Nat × α) : List (Nat × α) → List (Nat × α)
   | y :: r => if x.1 ≤ y.1 then x :: y :: r else y :: insBy x r
 def sortBy {α : Type} (l : List (Nat × α)) : List (Nat × α) := l.foldr insBy []
 
-def liveCb (x : Sim) (c : Nat) (h : CH) : Bool :=
-  match h with
-  | .ph r => x.ms.sdkReg r == x.ms.sdkUnreg r + 1
-  | .direct => !x.dDead.contains c
-
 def renderModel (x : Sim) : String :=
-  let status := if x.bad then "bad" else if x.active || !x.pend.isEmpty then "hang" else "ok"
+  let status := if x.bad then "bad" else if x.active || !x.pend.isEmpty then "hang"
+    else if x.ms.handled > 0 then "err:handled" else "ok"
   let insts := sortBy x.insts
   let valsOf (i : Nat) (h : IH) : List Nat :=
     match h with
@@ -119,13 +127,14 @@ def renderModel (x : Sim) : String :=
     let cs := (cbsS.filter fun (c, h, is) => liveCb x c h && is.contains i).map (·.1)
     let v := if cs.isEmpty then "-" else ";".intercalate (cs.map fun c => s!"{c}:{c + 1}")
     s!"i{i}={v}"
-  let cbs := cbsS.map fun (c, h, _) => s!"c{c}={if liveCb x c h then 2 else 0}"
+  let extra (c : Nat) : Nat := (x.extraInv.filter (·.1 == c)).foldl (fun a p => a + p.2) 0
+  let cbs := cbsS.map fun (c, h, _) => s!"c{c}={(if liveCb x c h then 2 else 0) + extra c}"
   let spans := Spec.sortNat (x.ts.recorded.map (·.2))
   let props := (sortBy x.props).map fun (p, v) => s!"p{p}={v}"
   " ".intercalate [status, joinOr x.gates.reverse, joinOr sync, joinOr obsv, joinOr cbs,
                    joinOr (spans.map fun s => match lookup x.spanInfo s with
                      | some (_, some p) => s!"{s}^{p}"
-                     | _ => toString s), joinOr props]
+                     | _ => toString s), joinOr props, "oc=" ++ joinOr x.ocs.reverse]
 
 def step (_ : Unit) (toks : List String) : Unit × Option Verdict :=
   let (inp, obsT) := splitObs toks
@@ -136,9 +145,9 @@ def step (_ : Unit) (toks : List String) : Unit × Option Verdict :=
       let specOK := Spec.globalOK ops obs
       let nt := Spec.nontrivial ops obs
       if kind == "forced" then
-        let x := runOps { obsGates := obs.gates } ops
+        let x := runOps { obsGates := obs.gates, obsOc := obs.oc } ops
         let m := renderModel x
-        let o := " ".intercalate (obsT.take 7)
+        let o := " ".intercalate (obsT.take 7 ++ [ocTok (obsT.drop 7)])
         ((), some { agree := m == o, spec := if specOK then "ok" else "FAIL", nontrivial := nt,
                     branches := joinOr x.tags.reverse, model := m })
       else if kind == "stress" then
